@@ -25,18 +25,20 @@ def Complete (s : Store) (m : Mem) : Prop :=
 
 instance (s : Store) (m : Mem) : Decidable (Complete s m) := by unfold Complete; infer_instance
 
-/-- Every storage state reachable by interrupted start-ups, at clock `t`:
+/-- Every storage state reachable by interrupted start-ups and maintenance passes:
     * whatever is stored under a `.key` name is a key;
     * a stored root certificate is self-signed and its key is stored with it;
-    * a stored intermediate certificate is signed by the stored root, an intermediate key is
-      stored with it, and if that key is not the certificate's own then the certificate is
-      inside its renewal window (an interrupted renewal) -/
+    * a stored intermediate certificate is signed by the stored root and SOME intermediate key
+      is stored with it — not necessarily its own: an interrupted or half-failed renewal leaves
+      a foreign key, which `loadOrGenIntermediate` detects and replaces.
+    (The clock argument is kept for the statements about renewal windows; the invariant itself
+    does not depend on it: `InvAt.any`.) -/
 structure InvAt (t : Nat) (s : Store) : Prop where
   rootKeyKind : ∀ b, s .rootKey = some b → ∃ r, b = .key r
   intKeyKind : ∀ b, s .intKey = some b → ∃ j, b = .key j
   root : ∀ b, s .rootCrt = some b → ∃ r ra, b = .cert r r ra ∧ s .rootKey = some (.key r)
   inter : ∀ b, s .intCrt = some b → ∃ i r ra rra j, b = .cert i r ra ∧
-            s .rootCrt = some (.cert r r rra) ∧ s .intKey = some (.key j) ∧ (j = i ∨ ra ≤ t)
+            s .rootCrt = some (.cert r r rra) ∧ s .intKey = some (.key j)
 
 instance decMonotone : (t : Nat) → (evs : List Event) → Decidable (Monotone t evs)
   | _, [] => isTrue trivial
